@@ -5,6 +5,7 @@ import (
 	"github.com/aml-org/amf-custom-validator/internal/misc"
 	"github.com/aml-org/amf-custom-validator/internal/parser/path"
 	"github.com/aml-org/amf-custom-validator/internal/parser/profile"
+	"strings"
 )
 
 type RegoPathResult struct {
@@ -156,17 +157,30 @@ func aggregateResultsIntoSet(paths []regoPathResultInternal) RegoPathResult {
 func aggregateResultsIntoArray(paths []regoPathResultInternal) RegoPathResult {
 	rego := make([]string, 0)
 	ruleName := profile.Genvar("path_array_rule")
-	for i, p := range paths {
-		if i == 0 {
-			rego = append(rego, fmt.Sprintf("%s = [ nodes | ", ruleName)) // header of the rule
-		} else {
-			rego = append(rego, "} {") // add another clause to the rule // TODO ?
-		}
-		for _, r := range p.rego {
+	if len(paths) == 1 {
+		rego = append(rego, fmt.Sprintf("%s = [ nodes | ", ruleName)) // header of the rule
+		for _, r := range paths[0].rego {
 			rego = append(rego, "  "+r) // add the rego code to the final rule
 		}
-	}
-	if len(rego) > 0 {
+		rego = append(rego, "]")
+	} else if len(paths) > 1 {
+		// One array per alternative path (ORs), the final array is the concatenation of all of them.
+		// A comprehension cannot have several bodies the way a rule can have several clauses.
+		rego = append(rego, fmt.Sprintf("%s = [ nodes | ", ruleName))
+		rego = append(rego, "  alternatives = [")
+		for i, p := range paths {
+			rego = append(rego, "    [ alternative_nodes | ")
+			for _, r := range p.rego {
+				rego = append(rego, "      "+strings.Replace(r, "nodes = ", "alternative_nodes = ", 1))
+			}
+			if i < len(paths)-1 {
+				rego = append(rego, "    ],")
+			} else {
+				rego = append(rego, "    ]")
+			}
+		}
+		rego = append(rego, "  ]")
+		rego = append(rego, "  nodes = alternatives[_][_]")
 		rego = append(rego, "]")
 	}
 
